@@ -1,7 +1,7 @@
 import StoneVerif.Lemmas.FeCompileLegalSound3
 set_option linter.unusedSimpArgs false
 /-!
-`compile` accepts a set of spec files exactly when it obeys the rules.
+`compileCore` accepts a set of spec files exactly when it obeys the rules.
 -/
 namespace StoneVerif.FeCompile.L
 open StoneVerif.FeCompile
@@ -14,8 +14,8 @@ theorem mem_nsTypeDecls {E : Env} {ns d} (hns : ns ∈ E.nss) (hd : d ∈ typeDe
   exact ⟨ns, hns, d, hd, rfl⟩
 
 /-- **what is accepted is legal** -/
-theorem compile_legal {rx fs api} (hl : nsLexical fs = true) (h : compile rx fs = .ok api) : Legal rx fs = true := by
-  unfold compile at h
+theorem compile_legal {rx fs api} (hl : nsLexical fs = true) (h : compileCore rx fs = .ok api) : LegalCore rx fs = true := by
+  unfold compileCore at h
   cases hEb : buildEnv fs with
   | error e => rw [hEb] at h; cases h
   | ok E =>
@@ -70,6 +70,7 @@ theorem compile_legal {rx fs api} (hl : nsLexical fs = true) (h : compile rx fs 
                 have hns : ns ∈ E.nss := by rw [hE.ok.nss]; exact ns_of_decl hmem
                 cases d with
                 | imp _ => rfl
+                | patch _ => rfl
                 | annot _ => rfl
                 | annotType _ => rfl
                 | type td =>
@@ -129,13 +130,13 @@ theorem compile_legal {rx fs api} (hl : nsLexical fs = true) (h : compile rx fs 
                   rw [hE.ok.files] at hcr
                   obtain ⟨c, hc⟩ := compileRoutes_sound hcr r hd
                   exact routeLegal_of_compile hE hlook hc
-              unfold Legal
+              unfold LegalCore
               simp only [hnames.1, hnames.2, Bool.and_self, Bool.true_and, List.all_eq_true]
               exact hdecls
 
 /-- **accepted = legal** (namespace names being identifiers) -/
 theorem compile_ok_iff_legal (rx : String → Bool) (fs : List File) (hl : nsLexical fs = true) :
-    (∃ api, compile rx fs = .ok api) ↔ Legal rx fs = true :=
+    (∃ api, compileCore rx fs = .ok api) ↔ LegalCore rx fs = true :=
   ⟨fun ⟨_, h⟩ => compile_legal hl h, legal_compile_ok hl⟩
 
 end StoneVerif.FeCompile.L
